@@ -7,6 +7,7 @@ import (
 	"math/rand"
 	"net/http"
 	"strings"
+	"time"
 
 	sxg "github.com/WICG/webpackage/go/signedexchange"
 	"github.com/WICG/webpackage/go/signedexchange/version"
@@ -83,6 +84,11 @@ type verCtx struct {
 }
 
 func (c *verCtx) emitVer(e *sxg.Exchange, kc *keyCert, sec int64, ns int, signed []map[string]interface{}, exact bool, file []byte, hasfile bool, readerr bool, note string) {
+	c.emitVerT(e, kc, time.Unix(sec, int64(ns)), signed, exact, file, hasfile, readerr, note)
+}
+
+func (c *verCtx) emitVerT(e *sxg.Exchange, kc *keyCert, tm time.Time, signed []map[string]interface{}, exact bool, file []byte, hasfile bool, readerr bool, note string) {
+	sec, ns := tm.Unix(), tm.Nanosecond()
 	c.n++
 	ev := map[string]interface{}{"case": fmt.Sprintf("%s%d", c.prefix, c.n), "kind": "ver", "leaf": ints(kc.certs[0].Raw), "signed": signed,
 		"exact": exact, "hasfile": hasfile, "file": ints(file), "readerr": readerr, "note": note}
@@ -92,7 +98,7 @@ func (c *verCtx) emitVer(e *sxg.Exchange, kc *keyCert, sec int64, ns int, signed
 		ev["ok"], ev["ret"], ev["panic"] = false, []int{}, false
 	} else {
 		ev["x"] = xOf(e)
-		v := doVerify(e, kc, sec, ns, "")
+		v := doVerifyT(e, kc, tm, "")
 		ev["t"], ev["ok"], ev["ret"], ev["panic"] = v.T, v.Ok, v.Ret, v.Panic
 	}
 	emit(ev)
@@ -153,6 +159,28 @@ func sxgMut(args []string) error {
 			for _, t := range [][2]int64{{sp.date - 1, 0}, {sp.date - 1, 999999999}, {sp.date, 0}, {mid, 0}, {sp.expires, 0}, {sp.expires, 1}, {sp.expires + 1, 0}} {
 				e0, rerr := readBack(file)
 				ctx.emitVer(e0, kc, t[0], int(t[1]), signed, true, file, true, rerr, "honest")
+			}
+			// the process's own clock is not an input: an exchange whose window contains the real present, verified at instants
+			// given as time.Time values of every kind (the zero Time, the epoch, far future, "now" with its monotonic reading,
+			// "now" in another location), and a long-expired exchange verified at the same instants
+			{
+				now := time.Now()
+				spn := *sp
+				spn.resph = cloneHeader(sp.resph)
+				spn.reqh = cloneHeader(sp.reqh)
+				spn.date, spn.expires = now.Unix()-3600, now.Unix()+3600
+				var signedN []map[string]interface{}
+				en := buildRecorded(&spn, kc, &signedN)
+				for _, pair := range []struct {
+					x *sxg.Exchange
+					s []map[string]interface{}
+					n string
+				}{{en, signedN, "window around the present"}, {e, signed, "window long past"}} {
+					for _, tm := range []time.Time{{}, time.Unix(0, 0), time.Unix(1, 0).UTC(), now, now.In(time.FixedZone("far", 14*3600)), now.UTC().Round(0), now.Add(-2 * time.Hour),
+						now.Add(2 * time.Hour), time.Date(9999, 12, 31, 23, 59, 59, 0, time.UTC), time.Unix(1<<40, 0), time.Unix(sp.date+1800, 0).In(time.FixedZone("west", -11*3600))} {
+						ctx.emitVerT(cloneEx(pair.x), kc, tm, pair.s, true, nil, false, false, "clock: "+pair.n)
+					}
+				}
 			}
 			// file-level mutations
 			try := func(m []byte, note string) {
